@@ -28,10 +28,17 @@ struct Entry {
 typedef util::AutoProbing<Entry, util::IdentityHash> Table;
 
 // Use 64-bit MurmurHash in the hash table.  
-bool IsNewLine(Table &table, util::StringPiece l) {
+// The table reserves key 0 for empty buckets and reports it as always present,
+// so a line hashing to 0 is tracked by seen_zero instead.
+bool IsNewLine(Table &table, bool &seen_zero, util::StringPiece l) {
   Table::MutableIterator it;
   Entry entry;
   entry.key = util::MurmurHashNative(l.data(), l.size(), 1);
+  if (entry.key == 0) {
+    bool first = !seen_zero;
+    seen_zero = true;
+    return first;
+  }
   return !table.FindOrInsert(entry, it);
 }
 
@@ -56,13 +63,14 @@ int main(int argc, char *argv[]) {
   }
   try {
     Table table;
+    bool seen_zero = false;
     util::StringPiece l;
 
     // If there's a file to remove lines from, add it to the hash table of lines.
     if (argc == 2) {
       util::FilePiece removing(argv[1]);
       while (removing.ReadLineOrEOF(l)) {
-        IsNewLine(table, StripSpaces(l));
+        IsNewLine(table, seen_zero, StripSpaces(l));
       }
     }
 
@@ -76,7 +84,7 @@ int main(int argc, char *argv[]) {
       // It does not begin with the magic document delimiter.
       // Its 64-bit hash has not been seen before.
       // and it is valid UTF-8.
-      if (!starts_with(l, remove_line) && IsNewLine(table, l) && util::IsUTF8(l)) {
+      if (!starts_with(l, remove_line) && IsNewLine(table, seen_zero, l) && util::IsUTF8(l)) {
         out << l << '\n';
       }
     }
